@@ -15,11 +15,11 @@ pub fn kinds_for(prop: &str) -> Vec<&'static str> {
         "C09" => vec!["model", "clone-count", "lazy", "dup", "double-drop", "handle"],
         "C10" => vec!["capacity", "len>cap", "model", "garbage"],
         "C14" => vec!["iter", "model"],
-        "C04" => vec!["type-admit", "type-reject", "type-meta", "double-drop", "corrupt-drop", "dup", "leak"],
-        "C12" => vec!["view", "align", "garbage"],
+        "C04" => vec!["type-admit", "type-reject", "type-meta", "meta", "model", "clone-count", "double-drop", "corrupt-drop", "dup", "leak"],
+        "C12" => vec!["view", "align", "garbage", "meta"],
         "C05" => vec!["guard", "stale-write", "garbage", "corrupt-drop", "corrupt-clone", "len>cap", "lifecycle", "crash", "alloc-layout"],
         "C11" => vec!["model", "garbage", "capacity", "stack-alloc", "clone-count"],
-        "C18" => vec!["alloc-shape", "alloc-layout", "alloc-invalid", "alloc-leak"],
+        "C18" => vec!["alloc-shape", "alloc-layout", "alloc-invalid", "alloc-leak", "align", "meta"],
         "C06" => vec!["double-drop", "corrupt-drop", "corrupt-clone", "clone-of-dead", "dup", "dead-visible", "garbage", "model", "guard", "stale-write", "len>cap", "crash", "meta", "view"],
         "C19" => vec!["model", "garbage", "stack-alloc", "capacity", "iter", "clone-count", "double-drop", "leak", "dup"],
         "C07" => vec!["forget-prefix", "model", "garbage", "dup", "dead-visible", "double-drop", "corrupt-drop", "iter"],
@@ -101,6 +101,7 @@ pub fn run(ctx: &mut Ctx) {
             cfgs.retain(|c| c.cloneable);
             fam::exhaustive(ctx, "clone", &cfgs, l, false, &fam::clone_ops);
             crate::special::c08_clone_from(ctx);
+            crate::special::meta_grid(ctx);
             scale(ctx);
         }
         "C09" => {
@@ -114,7 +115,12 @@ pub fn run(ctx: &mut Ctx) {
             crate::special::c10_amortised(ctx);
             crate::special::c10_large(ctx);
         }
-        "C04" => crate::special::c04(ctx),
+        "C04" => {
+            crate::special::c04(ctx);
+            // a vector that takes over another element type (clone_from) must take over all of it; getters across backends
+            crate::special::c08_clone_from(ctx);
+            crate::special::meta_grid(ctx);
+        }
         "C12" => {
             crate::special::c12(ctx);
             // alignment and byte-view coherence are also watched after every step of the generic families,
@@ -126,6 +132,7 @@ pub fn run(ctx: &mut Ctx) {
                 fam::exhaustive(ctx, "elem", &sub, 3, false, &fam::elem_seqs);
                 fam::histories(ctx, "mixed-hist", &sub, &hist(thorough, true, true, true, true));
                 crate::special::c10_large(ctx);
+                crate::special::meta_grid(ctx);
             }
             scale(ctx);
         }
@@ -193,6 +200,7 @@ pub fn run(ctx: &mut Ctx) {
             fam::histories(ctx, "mixed-hist", &cfgs, &hist(thorough, true, true, true, true));
             if ctx.sub != "light" && !ctx.tool_mode {
                 crate::special::c18_overflow(ctx);
+                crate::special::meta_grid(ctx);
                 scale(ctx);
                 crate::special::c10_large(ctx);
             }
